@@ -18,6 +18,18 @@ CLAIMED = {
          'floor-square-root validity predicate (no reference sqrt) on every value of the narrow types and on generated squares, squares+-1, boundary and random values of 64/128-bit, elastic_integer, wide_integer and scaled_integer operands; result digit/exponent checked statically; termination as a loop-iteration bound through hook H3',
          'termination is approximated by "within 1e5 iterations of the instrumented loops"; values enter and leave wide types through their limb arrays, not CNL arithmetic',
          'DESIGN.md section 5 C19'),
+ 'C16': ('exhaustive enumeration of 8/16-bit fractions and of small (quick) / all 8-bit (thorough) fraction pairs + rapidcheck proportional/neighbour pairs for wider components vs GMP rationals',
+         'every int8 and int16 fraction for reduce/canonical/conversion, every pair with components in [-8,7] (all 2^32 int8 pairs in the thorough tier) for the six comparisons and hash-of-equal, generated pairs elsewhere; exact rational oracle; stated preconditions (cross products fit, std::gcd domain) evaluated on exact values',
+         'GMP mpq as the rational oracle; conversion to floating point compared with the stated expression static_cast<F>(n)/static_cast<F>(d)',
+         'DESIGN.md section 5 C16'),
+ 'C06': ('rapidcheck limit-directed operands + exhaustive 8-bit operand planes vs exact GMP results, over 100 operand type pairs, 3 tags, 2 routes and both detection paths on both compilers (hook H1)',
+         'for each (op, operand types, tag, route, path) site: overflow must be signalled/saturated iff the exact integer result leaves numeric_limits of the built-in result type, on the correct side, else the exact value is returned; every 8-bit x 8-bit plane for every op is enumerated, wider planes are searched with operands constructed to land on max, max+1, lowest, lowest-1',
+         'trapping is observed through hook H2 (abort hook + longjmp); eight listed known findings are excluded by operand-defined cause regions (mixed signedness with a negative operand, minus on sub-int operands, ...), see known_findings.jsonl',
+         'DESIGN.md section 5 C06'),
+ 'C07': ('same sites as C06 driven over all operand values (extremes, every shift count, NaN/inf); invariant oracle: no UBSan trap, signal, internal error or failed assertion',
+         'totality: every operand value other than zero divisors and negative shift counts must either return or raise the tag\'s own signal; UB is made visible by UBSan traps (signed overflow, shift, division, float-cast) and SIGFPE, internal errors by hook H2; both detection paths forced on both compilers',
+         'UB that no sanitizer check covers at -O1 is out of reach; six listed known findings (oversized shift of 0, lowest()/-1 in the portable multiply test, NaN and rounded-max float sources, neutral polarity on the intrinsic path)',
+         'DESIGN.md section 5 C07'),
 }
 
 def main():
